@@ -30,7 +30,8 @@ CONSTANTS Keys,       \* endpoint keys, strings
           Rels,       \* names inside a zone that are queried
           Types,      \* record types that are queried
           MaxSteps,
-          WithQuery   \* TRUE: Query is an action of its own (cache modelled); FALSE: generator
+          WithQuery,  \* TRUE: Query is an action of its own (cache modelled); FALSE: generator
+          DistinctTs  \* TRUE: verified packets of one key carry distinct timestamps (ties are C37's business)
 VARIABLES store,      \* [Keys -> packet | NoPacket]   the persistent table
           cache,      \* [Keys -> packet | NoPacket]   decoded zones
           accepted,   \* ghost: [Keys -> set of packets that passed verification under that key]
@@ -45,6 +46,8 @@ Unserved == {"SOA", "NS"}
 MoreRecent(a, b) == a.ts > b.ts \/ (a.ts = b.ts /\ a.pl > b.pl)
 \* SignedPacket::from_relay_payload(path key, body)
 Valid(k, p) == p.sigOk /\ p.signer = k
+
+Fresh(k, p) == DistinctTs => \A q \in accepted[k] : q.ts # p.ts
 
 Serving(k) == IF cache[k] # NoPacket THEN cache[k] ELSE store[k]
 ZoneRecs(k, p) == {r \in p.recs : r.zl = k /\ r.ty \notin Unserved}
@@ -70,12 +73,12 @@ Init == /\ store = [k \in Keys |-> NoPacket] /\ cache = [k \in Keys |-> NoPacket
 PutRejected(k, p) == /\ Len(hist) < MaxSteps /\ ~Valid(k, p)
                      /\ UNCHANGED <<store, cache, accepted>> /\ Log(k, p, "rejected")
 \* verified, but the stored packet is more recent: noop (Upsert answers false)
-PutNoop(k, p) == /\ Len(hist) < MaxSteps /\ Valid(k, p)
+PutNoop(k, p) == /\ Len(hist) < MaxSteps /\ Valid(k, p) /\ Fresh(k, p)
                  /\ store[k] # NoPacket /\ MoreRecent(store[k], p)
                  /\ accepted' = [accepted EXCEPT ![k] = @ \cup {p}]
                  /\ UNCHANGED <<store, cache>> /\ Log(k, p, "noop")
 \* verified and not older than the stored one: replace, invalidate the cached zone (Upsert answers true)
-PutUpdate(k, p) == /\ Len(hist) < MaxSteps /\ Valid(k, p)
+PutUpdate(k, p) == /\ Len(hist) < MaxSteps /\ Valid(k, p) /\ Fresh(k, p)
                    /\ (store[k] = NoPacket \/ ~MoreRecent(store[k], p))
                    /\ accepted' = [accepted EXCEPT ![k] = @ \cup {p}]
                    /\ store' = [store EXCEPT ![k] = p]
